@@ -603,7 +603,14 @@ def run_script(sc: dict):
                 elif op == "clear":
                     scr.clear()
                 elif op == "start":
-                    scr.start()
+                    # `alternate_buffer` is the one keyword urwid's raw display `start()` documents
+                    if "alt" in st:
+                        scr.start(alternate_buffer=bool(st["alt"]))
+                    else:
+                        scr.start()
+                elif op == "leftover":
+                    # another program ran while the screen was stopped and left kitty images on the terminal
+                    term.pl = [tuple(p) for p in st["pl"]] + term.pl
                 elif op == "stop":
                     scr.stop()
                 elif op == "clear_images":
